@@ -173,12 +173,13 @@ def migration(cmd, mode, state=None):
     return ob
 
 
-def layout_migration():
-    """Known finding: the folder-layout migration is not resumable after an interruption between its moves."""
+def layout_migration(k):
+    """The folder-layout migration interrupted before effect k, then the same command again (the way `tally update` runs it):
+    the data file the settings point at must be where the budget is found."""
     class Q:
         def query(self):
             ok, why = self._run()
-            r = {'solver_queries': 0, 'solver_time_s': 0.0, 'paths': 1}
+            r = {'solver_queries': 0, 'solver_time_s': 0.0, 'paths': 1, 'extra': {'decided_by': 'direct run per crash point'}}
             r.update({'status': 'CONFIRMED', 'message': why} if ok else {'status': 'REFUTED', 'args': {}, 'message': why})
             return r
 
@@ -187,36 +188,43 @@ def layout_migration():
             sys.path.insert(0, REPO_SRC)
             from engine import fsx
             from tally import cli
-            bad = []
-            for k in range(0, 6):
-                root = build(True, False, False)
-                cwd = os.getcwd()
-                os.chdir(root)
-                try:
-                    with fsx.Interpose(root, crash_at=k):
-                        try:
-                            _quiet(cli.run_migrations, os.path.join(root, 'config'), True)
-                        except fsx.Crash:
-                            pass
-                    # re-run the same command the way `tally update` does
-                    cd = cli.find_config_dir()
-                    if cd:
+            root = build(True, False, False)
+            cwd = os.getcwd()
+            os.chdir(root)
+            try:
+                with fsx.Interpose(root, crash_at=k) as ip:
+                    try:
+                        _quiet(cli.run_migrations, os.path.join(root, 'config'), True)
+                    except fsx.Crash:
+                        pass
+                    except Exception:
+                        pass
+                n_effects = ip.n
+                cd = cli.find_config_dir()
+                if cd:
+                    try:
                         _quiet(cli.run_migrations, cd, True)
-                    cd = cli.find_config_dir()
-                    data_ok = cd is not None and os.path.exists(os.path.join(os.path.dirname(cd), 'data', 'bank.csv'))
-                    if not data_ok:
-                        bad.append(k)
-                finally:
-                    os.chdir(cwd)
-                    import shutil
-                    shutil.rmtree(root, ignore_errors=True)
-            if bad:
-                return False, 'layout migration interrupted before effect(s) %s: after re-running, the configured data file is not where the settings point' % bad
-            return True, 'layout migration resumable at every crash point'
+                    except Exception:
+                        pass
+                cd = cli.find_config_dir()
+                data_ok = cd is not None and os.path.exists(os.path.join(os.path.dirname(cd), 'data', 'bank.csv'))
+                rules_ok = cd is not None and os.path.exists(os.path.join(cd, 'merchant_categories.csv')) and os.path.exists(os.path.join(cd, 'settings.yaml'))
+            finally:
+                os.chdir(cwd)
+                import shutil
+                shutil.rmtree(root, ignore_errors=True)
+            if not (data_ok and rules_ok):
+                return False, 'layout migration interrupted before effect %d (of %d): after re-running, %s' % (
+                    k, n_effects, 'the configured data file is not where the settings point' if not data_ok else 'the rules / settings are not in the config directory that is found')
+            return True, 'resumable at crash point %d' % k
 
         def __call__(self, **kw):
             return self._run()[0]
     return Q()
+
+
+KNOWN_LAYOUT_POINTS = (2,)      # crash points at which the pinned code is NOT resumable (known finding)
+N_LAYOUT_EFFECTS = 5
 
 
 def obligations(tier, seed):
@@ -228,6 +236,9 @@ def obligations(tier, seed):
         for st in ([False, False, False], [False, True, False], [True, False, False], [True, True, True], [True, False, True]):
             obs.append(Obligation(id=f'init-{mode}-' + ''.join(str(int(x)) for x in st), factory='migration', params={'cmd': 'init', 'mode': mode, 'state': st}, timeout=170 if q else 900,
                                   group='CSV -> .rules migration', bounds=f'`tally init` on a folder with settings={st[0]}, .bak={st[1]}, merchants.rules={st[2]}: symbolic {mode} index 0..24' + (', partial-write mode 0..2' if mode == 'crash' else '')))
-    obs.append(Obligation(id='known-layout-migration', factory='layout_migration', engine='smt', twin=False, timeout=120, kind='known',
-                          known_key='C15:layout-migration-not-resumable', group='folder-layout migration', bounds='crash before each of the first 6 effects of run_migrations, then re-run'))
+    for k in range(0, 40 if tier != 'quick' else 24):
+        known = k in KNOWN_LAYOUT_POINTS
+        obs.append(Obligation(id=('known-' if known else '') + f'layout-migration-k{k:02d}', factory='layout_migration', params={'k': k}, engine='smt', twin=False, timeout=120,
+                              kind='known' if known else 'main', known_key='C15:layout-migration-not-resumable' if known else None, group='folder-layout migration',
+                              bounds=f'crash before effect {k} of run_migrations (the pinned code performs {N_LAYOUT_EFFECTS}; later indices only exist if the code does more), then re-run'))
     return obs
